@@ -891,8 +891,8 @@ def run_history(job) -> dict:
     where = None
 
     def find_chart(prs_):
-        if where is None:
-            return prs_.slides[len(prs_.slides) - 1].shapes[-1].chart
+        if where is None:        # the chart under test sits on the FIRST slide (a staged rendering adds scratch charts on further slides)
+            return prs_.slides[0].shapes[-1].chart
         n = 0
         for sl in prs_.slides:
             for sh in sl.shapes:
